@@ -54,9 +54,12 @@ impl<'a> Tokenizer<'a> {
         while self.chars.clone().next().map_or(false, |ch| {
             ch.is_ascii_alphanumeric() || *ch == b'_' || (*ch == b'*' && common)
         }) {
+            // The '*' of a common command is not part of the mnemonic
+            if !common {
+                len += 1;
+            }
             common = false;
             self.chars.next();
-            len += 1;
             if len > 12 {
                 return Err(ErrorCode::ProgramMnemonicTooLong);
             }
